@@ -38,6 +38,28 @@ type In3 struct {
 	Z string
 }
 
+func init() {
+	// Stream mode hands a struct that is filled field-wise by several predecessors to its node as
+	// several partially filled chunks; eino needs a concat function for such a type.
+	compose.RegisterStreamChunkConcatFunc(func(cs []In3) (In3, error) {
+		var out In3
+		for _, c := range cs {
+			out.X += c.X
+			out.Y += c.Y
+			out.Z += c.Z
+		}
+		return out, nil
+	})
+	compose.RegisterStreamChunkConcatFunc(func(cs []In) (In, error) {
+		var out In
+		for _, c := range cs {
+			out.X += c.X
+			out.Y += c.Y
+		}
+		return out, nil
+	})
+}
+
 func lamIn3(tag string) *compose.Lambda {
 	return compose.InvokableLambda(func(ctx context.Context, in In3) (string, error) {
 		return in.X + "|" + in.Y + "|" + in.Z + tag, nil
@@ -348,12 +370,15 @@ func init() {
 			} else {
 				c = wf.AddLambdaNode("c", mkLambda("m", "c"))
 			}
-			mapsA := []*compose.FieldMapping{compose.ToField("Y")} // retained argument slice
+			// retained arguments: the mapping slices, a mapping object, the field paths
+			fpY, fpZ := compose.FieldPath{"Y"}, compose.FieldPath{"Z"}
+			mapY := compose.ToFieldPath(fpY)
+			mapsA := []*compose.FieldMapping{mapY}
 			mapsS := []*compose.FieldMapping{compose.ToField("X")}
 			c.AddInput(compose.START, mapsS...)
 			c.AddInputWithOptions("a", mapsA)
 			if shape < 2 {
-				c.SetStaticValue(compose.FieldPath{"Z"}, "sz")
+				c.SetStaticValue(fpZ, "sz")
 			}
 			end := wf.End().AddInput("c")
 			b := &built{}
@@ -379,6 +404,11 @@ func init() {
 				voidOp("field-mapping-slice", "AddInputWithOptions(a, maps): maps[0]=ToField(Z)", func() { mapsA[0] = compose.ToField("Z") }),
 				voidOp("field-mapping-slice", "AddInputWithOptions(a, maps): maps[0]=ToField(X)", func() { mapsA[0] = compose.ToField("X") }),
 				voidOp("field-mapping-slice", "AddInput(start, maps...): maps[0]=ToField(Z)", func() { mapsS[0] = compose.ToField("Z") }),
+				voidOp("field-path-slice", "ToFieldPath(path) of the mapping a->c: path[0]=Z", func() { fpY[0] = "Z" }),
+				voidOp("field-path-slice", "SetStaticValue(path, ..) of c: path[0]=Y", func() { fpZ[0] = "Y" }),
+				voidOp("WorkflowNode.AddInput-retained-FieldMapping", "c <- start with the mapping object of a->c", func() { c.AddInput(compose.START, mapY) }),
+				voidOp("WorkflowNode.AddInput-retained-FieldMapping", "end <- zz with the mapping object of a->c", func() { end.AddInput("zz", mapY) }),
+				voidOp("Workflow.AddEnd-retained-FieldMapping", "AddEnd(c, the mapping object of a->c)", func() { wf.AddEnd("c", mapY) }),
 			)
 			b.lates = append(b.lates, kit.lates("a")...)
 			b.lates = append(b.lates, compileLates(sp, b.compile)...)
@@ -601,8 +631,8 @@ func init() {
 					_, err := inner.Compile(context.Background())
 					return nil, err
 				}},
-				voidOp("nested-interrupt-before-nodes-slice", "WithGraphCompileOptions(WithInterruptBeforeNodes(nodes)): nodes[0]=zz", func() { sib[0] = "zz" }),
-				voidOp("nested-compile-options-slice", "WithGraphCompileOptions(opts...): opts[0]=WithGraphName", func() { subOpts[0] = compose.WithGraphName("late") }),
+				voidOp("interrupt-before-nodes-slice", "nested graph: WithGraphCompileOptions(WithInterruptBeforeNodes(nodes)): nodes[0]=zz", func() { sib[0] = "zz" }),
+				voidOp("compile-options-slice", "nested graph: WithGraphCompileOptions(opts...): opts[0]=WithGraphName", func() { subOpts[0] = compose.WithGraphName("late") }),
 			)
 			b.lates = append(b.lates, kit.lates("s")...)
 			b.lates = append(b.lates, compileLates(sp, b.compile)...)
@@ -618,7 +648,7 @@ func init() {
 		sc.build = func() *built {
 			sp := &sc
 			c := compose.NewChain[string, string]()
-			kit := newOptKit("join", "head")
+			kit := newOptKit([]string{"join", "head"}[shape], []string{"head", "join"}[shape])
 			sub := smallGraph("pg")
 			p := compose.NewParallel().AddLambda("k0", mkLambda("s", "k0")).AddLambda("k1", mkLambda("s", "k1"))
 			if shape == 1 {
@@ -872,7 +902,8 @@ func (c *checker) checkLate(s lateSeq) {
 			sig = "C20/recompile-corrupts-first-runnable/" + sc.fe + "/after-" + res.name
 			what = "the runnable returned by the first successful Compile behaves differently after a later Compile (preceded by the named operations on retained objects)"
 		} else {
-			sig = "C20/retained-object-changes-runnable/" + sc.fe + "/" + res.name
+			// one signature per entry point / kind of retained argument, whatever the front end
+			sig = "C20/retained-object-changes-runnable/" + res.name
 			what = "the runnable returned by the first successful Compile behaves differently after a later operation on an object the caller retained"
 		}
 	case "modified":
@@ -995,4 +1026,23 @@ func (s lateSeq) digest() string {
 		parts[i] = strconv.Itoa(x)
 	}
 	return "late/" + scenarios[s.sc].name + "/" + strconv.Itoa(s.init) + "/" + strings.Join(parts, ",")
+}
+
+func totalLates() int {
+	n := 0
+	for i := range scenarios {
+		n += nLatesCached(i)
+	}
+	return n
+}
+
+// lateOpNames: every kind of late operation some scenario offers (sorted).
+func lateOpNames() []string {
+	set := map[string]bool{}
+	for i := range scenarios {
+		for _, l := range scenarios[i].build().lates {
+			set[l.Name] = true
+		}
+	}
+	return mon.SortedKeys(set)
 }
